@@ -14,6 +14,12 @@
 (*                          its decoder at most once                        *)
 (*   package-level state    an independent Writer/Reader pair working at    *)
 (*                          the same time read back its own data            *)
+(*   SharedFieldTree        pages with the widgets of one interactive form, *)
+(*                          decoded by several goroutines through one       *)
+(*                          Extractor: every decode of a page returned the  *)
+(*                          identical page value, every widget is linked to *)
+(*                          the field the form's field tree holds, and      *)
+(*                          occurs once among that field's widgets          *)
 EXTENDS TraceLib, FiniteSets
 
 Cases == Records
@@ -42,7 +48,12 @@ ChainConsistent(c) ==
      (c.cache[i].ref = c.chains[n][1] /\ c.cache[j].ref = c.chains[n][2] /\ c.cache[i].tp = c.cache[j].tp)
         => c.cache[i].id = c.cache[j].id
 ExclusiveOnce(c) == \A i \in 1..Len(c.runs) : c.runs[i].runs <= 1
-CaseOK(c) == Agreement(c) /\ SeqEquivalent(c) /\ CacheAgrees(c) /\ ChainConsistent(c) /\ ExclusiveOnce(c) /\ c.writerok
+SharedFieldTree(c) ==
+  /\ \A i \in 1..Len(c.links) : LET l == c.links[i] IN
+        l.pageid # 0 /\ l.widget # 0 /\ l.field # 0 /\ l.field = l.tree /\ l.count = 1
+  /\ \A i, j \in 1..Len(c.links) : (c.links[i].widget = c.links[j].widget) => c.links[i].field = c.links[j].field
+  /\ \A i, j \in 1..Len(c.links) : (c.links[i].page = c.links[j].page /\ c.links[i].tree = c.links[j].tree) => c.links[i].widget = c.links[j].widget
+CaseOK(c) == Agreement(c) /\ SeqEquivalent(c) /\ CacheAgrees(c) /\ ChainConsistent(c) /\ ExclusiveOnce(c) /\ c.writerok /\ SharedFieldTree(c)
 
 VARIABLES i, bad, done
 vars == <<i, bad, done>>
